@@ -215,7 +215,7 @@ def rule_hook_shape(check):
 def rule_call_emission(check):
     """the behaviour-relevant half of CALL-SIGNATURE (registered under C01/C02): what the emitted
     `.call/.apply` is invoked on, with which receiver, which arguments and under which name"""
-    sub = _Only(check, "CALL-SIGNATURE", ("/this-arg", "/callee-object", "/member-obj", "/all-args-in-order", "/call-or-apply/", "/expand-arrays", "/FLOOR/call_or_apply"))
+    sub = _Only(check, "CALL-SIGNATURE", ("/this-arg", "/callee-object", "/member-obj", "/all-args-in-order", "/call-or-apply/", "/expand-arrays", "/FLOOR/call_or_apply", "/bare-callee-kept", "/callee-write/", "/FLOOR/callee writes"))
     rule_call_signature(sub)
 
 
@@ -397,6 +397,25 @@ def rule_call_signature(check):
         und = [x["lit"]["v"] for x in hir.walk(h.body) if x.get("k") == "Lit" and x["lit"]["t"] == "str"]
         ok = first_is_ident and "undefined" in und
     check.expect(ok, R, R + "/bare-call", hir.loc(h.rec), "bare call: (fn, undefined, args..)", "bare-call hook arguments are %s" % seq)
+    # a bare call keeps its callee: `f(x)` stays a call of the identifier `f` (direct eval, with-scope
+    # lookup, strictness of the callee resolution); only the member path replaces the callee
+    rc = prog.fn("call_expr_transform::replace_call_callee_and_args")
+    for n in hir.calls_in(h.body, name="replace_call_callee_and_args"):
+        os_ = pv.origins(h, hir.call_args(n)[1])
+        none_ = bool(os_) and all(r[0] == "ctor" and r[1].split("::")[-1] == "None" for r, p_ in os_)
+        check.expect(none_, R, R + "/bare-callee-kept", hir.loc(n), "bare call: no callee replacement is requested", "the bare-call path asks for the callee to be replaced (%s): `f(x)` is no longer a call of the identifier" % sorted(origin_str(o) for o in os_))
+    writers = []
+    for f_ in prog.user_fns:
+        for n in f_.nodes():
+            if n.get("k") in ("Assign", "AssignOp"):
+                l = hir.peel(n["l"])
+                if l.get("k") == "Field" and l["field"] == "callee" and "CallExpr" in (l.get("base_ty") or ""):
+                    writers.append((f_, n))
+    for f_, n in writers:
+        atoms = gate.atoms_at(f_, n)
+        ok_ = f_ is rc and any(a[0] == "variant" and a[3] is True and str(a[2]).split("::")[-1] == "Some" and (a[1] or "").split("#")[0] == "ident_callee_expr" for a in atoms)
+        check.expect(ok_, R, "%s/callee-write/%s" % (R, f_.name), hir.loc(n), "the callee of the cloned call is replaced only when a callee temporary is supplied", "%s overwrites the callee of a call outside the reviewed member path: the emitted call is no longer the original call" % f_.name)
+    check.floor(R, "callee writes", len(writers), 1)
     s = prog.fn("call_expr_transform::replace_call_spread_if_csi_method_with_member")
     al = [lid for lid, b in s.bindings().items() if b["name"] == "arguments" and b["origin"][0] == "let"]
     evs = [n for n in s.nodes() if hir.is_call(n) and any((hir.local_of(x) or (None,))[0] == al[0] for x in hir.call_args(n))] if al else []
@@ -946,3 +965,66 @@ def rule_optchain_lowering(check):
         atoms = gate.atoms_at(f, x)
         ok = any(a[0] == "compound" for a in atoms) or any(a[0] == "call" and a[1] in ("is_empty", "is_none") and a[4] is True for a in atoms)
         check.expect(ok, R, R + "/not-modified", hir.loc(x), "not modified when nothing was extracted", "to_dd_cond_expr reports not-modified under other conditions")
+
+
+def rule_fresh_temp(check):
+    """FRESH-TEMP: one temporary per captured operand position."""
+    R = "FRESH-TEMP"
+    check.rule(R, "every identifier returned by get_temporal_ident_used_in_assignation is the identifier of a create_assign_expression(self.next_ident(), operand, ..) call made on that very path, whose assignment is pushed once to `assignations`: two operand positions never share a temporary (a shared capture is read at the wrong time and erasure cannot tell the positions apart)")
+    prog = check.prog
+    g = prog.fn("IdentProvider::get_temporal_ident_used_in_assignation")
+    pv = Prov(prog, opaque={"create_assign_expression", "next_ident"})
+    rets = return_exprs(g.body)
+    somes = [r for r in rets if not (hir.peel(r).get("k") == "Path" and (hir.peel(r)["res"].get("ctor_path") or "").split("::")[-1] == "None")]
+    check.floor(R, "Some(..) returns of the temp helper", len(somes), 1)
+    creates = list(hir.calls_in(g.body, name="create_assign_expression"))
+    for i, r in enumerate(somes):
+        os_ = pv._proj(pv.origins(g, r), ("Some", "0")) or pv.origins(g, r)
+        os_ = {o for o in os_ if o[0][0] != "ctor" or o[0][1].split("::")[-1] != "Some"} or os_
+        bad = []
+        for root, proj in os_:
+            if root[0] == "call" and root[1].split("::")[-1] == "create_assign_expression":
+                continue
+            bad.append(origin_str((root, proj)))
+        rconds = [x for x in g.conds_at(r) if x["t"] != "closure"]
+        same_path = [c for c in creates if [x for x in g.conds_at(c) if x["t"] != "closure"] == rconds]
+        fresh = False
+        pushed = 0
+        for c in same_path:
+            a = hir.call_args(c)
+            idx = pv.origins(g, a[1]) if len(a) > 1 else set()
+            fresh = fresh or (bool(idx) and all(rt[0] == "call" and rt[1].split("::")[-1] == "next_ident" for rt, _ in idx))
+            opnd = hir.place(a[2]) if len(a) > 2 else None
+            fresh = fresh and opnd is not None and opnd.split("#")[0] == "operand"
+        for psh in hir.calls_in(g.body, name="push"):
+            if (hir.place(hir.call_args(psh)[0]) or "").split("#")[0] == "assignations" and [x for x in g.conds_at(psh) if x["t"] != "closure"] == rconds:
+                po = pv.origins(g, hir.call_args(psh)[1])
+                if any(rt[0] == "call" and rt[1].split("::")[-1] == "create_assign_expression" for rt, _ in pv._proj(po, ("0",)) | po | _ctor_args(pv, g, po)):
+                    pushed += 1
+        ok = not bad and bool(os_) and len(same_path) == 1 and fresh and pushed == 1
+        why = []
+        if bad or not os_:
+            why.append("it returns %s" % (", ".join(sorted(bad)) or "an identifier of unknown origin"))
+        if len(same_path) != 1:
+            why.append("%d create_assign_expression calls on the returning path" % len(same_path))
+        elif not fresh:
+            why.append("the name index is not self.next_ident() or the captured value is not the operand")
+        if pushed != 1:
+            why.append("its assignment is pushed %d times" % pushed)
+        check.expect(ok, R, "%s/return-%d" % (R, i) if i else R + "/return", hir.loc(r), "returns the identifier of the one fresh assignment pushed on this path", "get_temporal_ident_used_in_assignation can hand out a temporary that is not fresh for this operand position (%s): operands share a capture" % "; ".join(why))
+
+
+def _ctor_args(pv, g, origins):
+    """origins of the arguments of constructor-call origins (Expr::Assign(assign) -> assign)"""
+    out = set()
+    for root, proj in origins:
+        if root[0] == "ctor" and len(root) >= 5:
+            f = pv.prog.by_def.get(root[2])
+            try:
+                node = f.by_id(root[3]) if f else None
+            except KeyError:
+                node = None
+            if node is not None and node.get("k") == "Call":
+                for a in node["args"]:
+                    out |= pv.origins(f, a, root[4])
+    return out
